@@ -39,6 +39,26 @@ def jobOfJson (j : Json) : Except String Job := do
     | s => throw s!"unknown style {s}"
   pure { src, out, tmp, body }
 
+/-- links on the wire: `{"entry": [[spelling, entry]], "ino": [[entry, id]]}` (keys distinct). -/
+def linksOfJson (j : Json) : Except String Links := do
+  let entry ← fsOfJson (← j.getObjVal? "entry")
+  let inoArr ← (← j.getObjVal? "ino").getArr?
+  let ino ← inoArr.toList.mapM fun p => do
+    match p with
+    | .arr #[k, v] => pure ((← k.getStr?), (← jsonNat? v))
+    | _ => throw "ino entry must be [name, id]"
+  if (ino.map (·.1)).eraseDups.length != ino.length then throw "duplicate names in ino"
+  pure { entry, ino }
+
+/-- The route of every job the loop reaches when nothing faults (for the route comparison). -/
+def routesOf : Links → Fs → List Job → List String
+  | _, _, [] => []
+  | l, fs, j :: js =>
+    let r := runJobL {} Plan.clean 0 l fs j
+    (match route l fs j with
+      | none => "inplace"
+      | some o => "direct:" ++ o) :: routesOf (linksAfter l fs j) (final fs r.2) js
+
 def faultOfStr : String → Except String Fault
   | "raise" => pure .raise
   | "kill" => pure .kill
@@ -70,7 +90,8 @@ def verdictToJson (v : Verdict) : Json :=
     ("noExtra", v.noExtra), ("noneMissing", v.noneMissing), ("unmatchedSame", v.unmatchedSame)]
 
 /-- ops:
-    `run`   {fs, jobs, plan, cleanup?} → {outcome, final, events, ops, wholeEverywhere}
+    `run`   {fs, jobs, plan, cleanup?, links?} → {outcome, final, events, routes, wholeEverywhere}
+            (`links` absent = no link table: a name is its own inode; job `out` is a path spelling)
     `judge` {before, after, srcs: [[name, newBytes]], end} → verdict of the C15 monitor. -/
 def handle (op : String) (j : Json) : Except String Json := do
   match op with
@@ -81,10 +102,23 @@ def handle (op : String) (j : Json) : Except String Json := do
     let cleanup ← match j.getObjVal? "cleanup" with
       | .ok b => b.getBool?
       | .error _ => pure true
+    let links ← match j.getObjVal? "links" with
+      | .ok .null => pure ({} : Links)
+      | .ok lj => linksOfJson lj
+      | .error _ => pure ({} : Links)
     for jb in jobs do
       if fs.contains jb.tmp then throw s!"temp name {jb.tmp} not fresh"
       if jobs.any (·.src == jb.tmp) then throw s!"temp name {jb.tmp} is a source"
-    let r := runJobs { cleanupWrite := cleanup } plan 0 fs jobs
+      if links.resolve jb.src != jb.src then throw s!"source {jb.src} is not a resolved entry"
+    for e in links.ino do
+      if !fs.contains e.1 then throw s!"ino names {e.1}, not in fs"
+    for e in links.entry do
+      if links.resolve e.2 != e.2 then throw s!"entry target {e.2} is not a resolved entry"
+    -- coherence: entries that are links to one inode hold the same bytes
+    for e in links.ino do
+      for e' in links.ino do
+        if e.2 == e'.2 && fs.get? e.1 != fs.get? e'.1 then throw s!"hard links {e.1} {e'.1} differ"
+    let r := runJobsL { cleanupWrite := cleanup } plan 0 links fs jobs
     -- the monitor evaluated on every state of the model's own trace (sanity, also proved)
     let srcs := jobs.map fun jb => (jb.src, newContent jb.body)
     let whole := r.2.all fun ev => (judge fs ev.2 srcs .killed).srcWhole
@@ -92,6 +126,7 @@ def handle (op : String) (j : Json) : Except String Json := do
       ("outcome", outcomeToJson r.1),
       ("final", fsToJson (final fs r.2)),
       ("events", Json.arr (r.2.map fun ev => Json.str ev.1).toArray),
+      ("routes", Json.arr ((routesOf links fs jobs).map Json.str).toArray),
       ("wholeEverywhere", whole)])
   | "judge" =>
     let before ← fsOfJson (← j.getObjVal? "before")
